@@ -215,10 +215,30 @@ def ne_ite_then : Schema := { name := "N13.ne_ite_then", lhs := fun p => .app .n
 
 def iteCmp : List Schema := [eq_ite_then, eq_ite_else, ne_ite_else, ne_ite_then]
 
+/-! #### `ZeroExt(n, y) >= c` and `Concat(0, y) >= c` (zeroext_comparing_against_simplifier, unsigned) -/
+def zextY (p : P) : Expr := .app (.zeroExt p.n) [p.y]
+def cat0Y (p : P) : Expr := .app .concat [.bvv 0 p.n, p.y]
+def ugeLowSide (p : P) : Bool := match p.y.width with
+  | some wy => decide (p.w = wy + p.n ∧ 0 < p.n ∧ p.c1 % 2 ^ p.w < 2 ^ wy ∧ p.c2 = wy)
+  | none => false
+def ugeHighSide (p : P) : Bool := match p.y.width with
+  | some wy => decide (p.w = wy + p.n ∧ 0 < p.n ∧ 2 ^ wy ≤ p.c1 % 2 ^ p.w)
+  | none => false
+/-- the high bits of the literal are zero: compare the narrow operand with the truncated literal (`p.c2` = width of `y`) -/
+def uge_zext_low : Schema := { name := "E18.uge_zext_low", lhs := fun p => .app .uge [zextY p, .bvv p.c1 p.w],
+                               rhs := fun p => .app .uge [p.y, .bvv (p.c1 % 2 ^ p.w) p.c2], side := ugeLowSide }
+def uge_zext_high : Schema := { name := "E18.uge_zext_high", lhs := fun p => .app .uge [zextY p, .bvv p.c1 p.w],
+                                rhs := fun _ => .boolv false, side := ugeHighSide }
+def uge_cat0_low : Schema := { name := "E18.uge_cat0_low", lhs := fun p => .app .uge [cat0Y p, .bvv p.c1 p.w],
+                               rhs := fun p => .app .uge [p.y, .bvv (p.c1 % 2 ^ p.w) p.c2], side := ugeLowSide }
+def uge_cat0_high : Schema := { name := "E18.uge_cat0_high", lhs := fun p => .app .uge [cat0Y p, .bvv p.c1 p.w],
+                                rhs := fun _ => .boolv false, side := ugeHighSide }
+def ugeZext : List Schema := [uge_zext_low, uge_zext_high, uge_cat0_low, uge_cat0_high]
+
 /-- byte reversal is an involution, hence injective -/
 def revRules : List Schema := [rev_rev, eq_rev]
 
-def all : List Schema := base ++ widthy ++ iteCmp ++ revRules
+def all : List Schema := base ++ widthy ++ iteCmp ++ revRules ++ ugeZext
 
 /-- schemas transcribed from the code whose soundness theorem is not proved yet (used for matching only) -/
 def unproved : List Schema := []
@@ -265,12 +285,13 @@ def proposals (t : Expr) : List P :=
     let widthy : List P :=
       (match a.width with | some w => [{ x := a, w := w }] | none => []) ++
       (match a, bvvOf b with
-       | .app (.zeroExt n) [y], some (v, w) => [{ y := y, n := n, c1 := v, w := w }]
+       | .app (.zeroExt n) [y], some (v, w) => [{ y := y, n := n, c1 := v, w := w }, { y := y, n := n, c1 := v, c2 := (y.width.getD 0), w := w }]
        | .app .add xs, some (v, w) =>
          (match xs.getLast?, xs.dropLast with
           | some (.bvv v1 _), init => [{ xs := init, c1 := v1, c2 := v, w := w }]
           | _, _ => [])
        | .app .ite [c0, .bvv k1 w, .bvv k2 _], some _ => [{ c := c0, c1 := k1, c2 := k2, w := w }]
+       | .app .concat [.bvv 0 n, y], some (v, w) => [{ y := y, n := n, c1 := v, c2 := (y.width.getD 0), w := w }]
        | _, _ => [])
     base ++ withConst ++ nested ++ widthy
   | .app _ [c, a, b] =>
